@@ -31,9 +31,11 @@ EXTENDS Integers, Sequences, FiniteSets, TLC
 CONSTANTS L,        \* number of sites (<= 6)
           K,        \* modes per site: 1 = FermionSite, 2 = SpinHalfFermionSite
           Names,    \* operator names offered: K=1: subset of {"C","Cd","N"}; K=2: {"Cu","Cdu","Cd","Cdd","Nu","Nd"}
-          MaxLen    \* maximal number of operators in a term
+          MaxLen,   \* maximal number of operators in a term
+          SpinAt    \* K = 1: sites that are SpinHalfSites (heterogeneous chain); they carry one bit (1 = up) but no
+                    \* fermionic mode: their 'JW' is the identity, the only operator offered on them is "Sigmaz"
 
-ASSUME K \in {1, 2} /\ L \in 1..6 /\ K * L <= 6 /\ MaxLen \in 1..4
+ASSUME K \in {1, 2} /\ L \in 1..6 /\ K * L <= 6 /\ MaxLen \in 1..4 /\ SpinAt \subseteq 0..(L - 1) /\ (K = 2 => SpinAt = {})
 
 M == K * L
 Sites == 0..(L - 1)
@@ -47,6 +49,7 @@ vars == <<term, last>>
 IsAnn(nm) == IF K = 1 THEN nm = "C" ELSE nm \in {"Cu", "Cd"}
 IsCre(nm) == IF K = 1 THEN nm = "Cd" ELSE nm \in {"Cdu", "Cdd"}
 IsNum(nm) == nm \in {"N", "Nu", "Nd"}
+IsSpinOp(nm) == nm = "Sigmaz"                                      \* bosonic operator of the spin sites: +1 (up), -1 (down)
 Spin(nm) == IF nm \in {"Cu", "Cdu", "Nu"} THEN 0 ELSE 1           \* K = 2 only
 ModeOf(nm, i) == IF K = 1 THEN i ELSE 2 * i + Spin(nm)            \* 0-based mode index
 \* Site.need_JW_string
@@ -62,13 +65,15 @@ HcName(nm) == CASE nm = "C" -> "Cd"  [] nm = "Cd" /\ K = 1 -> "C"
 \* Layer 1: genuine fermions on bit strings.  b is a sequence of M bits, mode m is b[m+1].
 Zero == [s |-> 0, b |-> <<>>]
 Sgn(n) == IF n % 2 = 0 THEN 1 ELSE -1
-Occ(b, lo, hi) == Cardinality({k \in lo..hi : b[k] = 1})
+\* number of fermions in the modes lo..hi (the bit of a spin site is not a fermion)
+Occ(b, lo, hi) == Cardinality({k \in lo..hi : b[k] = 1 /\ ((k - 1) \div K) \notin SpinAt})
 
 Fock(o, v) ==       \* o = <<name, site>>
     IF v.s = 0 THEN Zero ELSE
     LET m == ModeOf(o[1], o[2]) + 1 IN
     IF IsAnn(o[1]) THEN (IF v.b[m] = 1 THEN [s |-> v.s * Sgn(Occ(v.b, 1, m - 1)), b |-> [v.b EXCEPT ![m] = 0]] ELSE Zero)
     ELSE IF IsCre(o[1]) THEN (IF v.b[m] = 0 THEN [s |-> v.s * Sgn(Occ(v.b, 1, m - 1)), b |-> [v.b EXCEPT ![m] = 1]] ELSE Zero)
+    ELSE IF IsSpinOp(o[1]) THEN [v EXCEPT !.s = IF v.b[m] = 1 THEN v.s ELSE -v.s]
     ELSE (IF v.b[m] = 1 THEN v ELSE Zero)       \* number operator
 
 RECURSIVE FockTerm(_, _)
@@ -99,12 +104,13 @@ Local(nm, i, v) ==
              pre == Sgn(Occ(v.b, K * i + 1, m - 1))          \* on-site JWu for the spin-down operators
          IN IF IsAnn(nm) THEN (IF v.b[m] = 1 THEN [s |-> v.s * pre, b |-> [v.b EXCEPT ![m] = 0]] ELSE Zero)
             ELSE IF IsCre(nm) THEN (IF v.b[m] = 0 THEN [s |-> v.s * pre, b |-> [v.b EXCEPT ![m] = 1]] ELSE Zero)
+            ELSE IF IsSpinOp(nm) THEN [v EXCEPT !.s = IF v.b[m] = 1 THEN v.s ELSE -v.s]
             ELSE (IF v.b[m] = 1 THEN v ELSE Zero)
 
 ------------------------------------------------------------------------------
 \* Operators as `mat` sequences.  The matrices of the single operators are tabulated once (TLC
 \* evaluates these constant definitions a single time); products are compositions of tables.
-OpNames == IF K = 1 THEN <<"C", "Cd", "N", "JW">> ELSE <<"Cu", "Cdu", "Cd", "Cdd", "Nu", "Nd", "JW">>
+OpNames == IF K = 1 THEN <<"C", "Cd", "N", "Sigmaz", "JW">> ELSE <<"Cu", "Cdu", "Cd", "Cdd", "Nu", "Nd", "JW">>
 NameIdx(nm) == CHOOSE k \in 1..Len(OpNames) : OpNames[k] = nm
 
 RECURSIVE ColsR(_, _, _, _)
@@ -236,6 +242,14 @@ TermOpsFull(t) ==
     LET r == TermOps(t) IN
     IF r.extra THEN [i \in Sites |-> IF i < r.imin THEN <<"JW">> ELSE r.per[i]] ELSE r.per
 
+\* Relative indices: apply_local_term(term, i_offset = o), term_correlation_function_right(term_L, term_R, i_L, j_R)
+\* address site i + o with the entry (op, i); *everything* (which Site object names the operator, whether it
+\* needs a string, where the strings run) is decided at the absolute site.  So for every offset o
+\*      TermOps'(Shift(t, -o), o) = TermOps(t)      with  TermOps'(r, o) == TermOps(Shift(r, o))
+Shift(t, o) == [k \in 1..Len(t) |-> <<t[k][1], t[k][2] + o>>]
+\* term_correlation_function_right: T = T_L . T_R with all sites of T_L left of all sites of T_R (split after position h)
+SplitOK(t, h) == \A a \in 1..h, b \in (h + 1)..Len(t) : t[a][2] < t[b][2]
+
 \* Layer 2e: MPS.correlation_function(ops1, ops2, [i], [j]) with autoJW  (term = <<A_i, B_j>>)
 CorrPer(t) ==
     LET a == t[1][1]  i == t[1][2]  b == t[2][1]  j == t[2][2]  jw == NeedsJW(a) IN
@@ -263,26 +277,32 @@ Describe(t, mat) ==
                   ELSE [err |-> FALSE, i |-> <<gr[1].g>>, ops |-> <<NamesOf(gr[1].ops)>>, str |-> <<>>],
         tol   |-> LET r == TermOps(t) IN [imin |-> r.imin, extra |-> r.extra,
                                           ops |-> [k \in 1..(r.imax - r.imin + 1) |-> r.per[r.imin + k - 1]]],
+        splits |-> {h \in 1..(Len(t) - 1) : SplitOK(t, h)},
         hc    |-> [k \in 1..Len(t) |-> <<HcName(t[Len(t) + 1 - k][1]), t[Len(t) + 1 - k][2]>>]]
 
 Init == term = <<>> /\ last = [len |-> 0, mat |-> IDM]
 
 \* one named action per kind of operator appended on the right of the term:  T' = T.O, so
 \* mat' = mat . FMat(O)
-AppendAnn == \E nm \in {x \in Names : IsAnn(x)}, i \in Sites :
+FSites == Sites \ SpinAt
+AppendAnn == \E nm \in {x \in Names : IsAnn(x)}, i \in FSites :
                 /\ Len(term) < MaxLen
                 /\ term' = Append(term, <<nm, i>>)
                 /\ last' = Describe(term', Mul(last.mat, FMat(<<nm, i>>)))
-AppendCre == \E nm \in {x \in Names : IsCre(x)}, i \in Sites :
+AppendCre == \E nm \in {x \in Names : IsCre(x)}, i \in FSites :
                 /\ Len(term) < MaxLen
                 /\ term' = Append(term, <<nm, i>>)
                 /\ last' = Describe(term', Mul(last.mat, FMat(<<nm, i>>)))
-AppendNum == \E nm \in {x \in Names : IsNum(x)}, i \in Sites :
+AppendNum == \E nm \in {x \in Names : IsNum(x)}, i \in FSites :
+                /\ Len(term) < MaxLen
+                /\ term' = Append(term, <<nm, i>>)
+                /\ last' = Describe(term', Mul(last.mat, FMat(<<nm, i>>)))
+AppendSpin == \E nm \in {x \in Names : IsSpinOp(x)}, i \in SpinAt :
                 /\ Len(term) < MaxLen
                 /\ term' = Append(term, <<nm, i>>)
                 /\ last' = Describe(term', Mul(last.mat, FMat(<<nm, i>>)))
 
-Next == AppendAnn \/ AppendCre \/ AppendNum
+Next == AppendAnn \/ AppendCre \/ AppendNum \/ AppendSpin
 Spec == Init /\ [][Next]_vars
 
 ------------------------------------------------------------------------------
